@@ -19,6 +19,40 @@ def main():
     if bad:
         print("SELFTEST FAILED: lemma library")
         return 3
+    # canaries: deliberately false clauses must be refuted with a model that replays on the real function
+    import copy
+    from .contracts import Registry
+    from .source import Repo
+    from .verifier import Verifier
+    from . import cex
+    from .check import CONTRACT_DIR
+    repo = Repo()
+    reg = Registry().load_dir(CONTRACT_DIR)
+    canaries = [
+        ("nucs/propagators/max_leq_propagator.py::compute_domains_max_leq", ("canary.never_entailed", "result != PROP_ENTAILMENT"), {"n": 2, "m": 0}),
+        ("nucs/solvers/solver.py::decrease_max", ("canary.bound_untouched", "shr_domains_stack[stacks_top[0], dom_indices_arr[var_idx], MAX] == old(shr_domains_stack)[stacks_top[0], dom_indices_arr[var_idx], MAX]"),
+         {"H": 2, "D": 2, "V": 2, "_pin": {"stacks_top": [0]}}),
+        ("nucs/heuristics/min_value_dom_heuristic.py::min_value_dom_heuristic", ("canary.alternative_equals_branch", "shr_domains_stack[stacks_top[0], dom_idx, MAX] == shr_domains_stack[old(stacks_top)[0], dom_idx, MAX]"),
+         {"H": 3, "D": 2, "P": 1, "_pin": {"stacks_top": [0]}}),
+    ]
+    for q, clause, arity in canaries:
+        con = copy.copy(reg.contracts[q])
+        con.ensures = list(con.ensures) + [clause]
+        reg2 = copy.copy(reg)
+        reg2.contracts = dict(reg.contracts)
+        reg2.contracts[q] = con
+        fi = repo.functions[q]
+        v = Verifier(repo, Prover(timeout_ms=20000), reg2, fi)
+        v.verify(dict(arity))
+        hit = [o for o in v.obligations if o.label == clause[0] and o.status == "failed" and o.model]
+        if not hit:
+            print("SELFTEST FAILED: canary", clause[0], "was not refuted", [(o.label, o.status) for o in v.obligations if o.label == clause[0]])
+            return 3
+        r = cex.replay(repo, reg2, fi, con, hit[0].model, repo.root)
+        if clause[0] not in r.get("violated", []):
+            print("SELFTEST FAILED: canary", clause[0], "counter-model does not replay on the real function", r.get("violated"), r.get("native"))
+            return 3
+        print("canary", clause[0], "refuted and replayed natively")
     print("selftest ok")
     return 0
 
